@@ -377,23 +377,33 @@ def scheduling_ob(fm):
 
 
 # ------------------------------------------------------------------------------------------ bounded end-to-end
-def independent_total(calc, key, which):
-    """static part recomputed with numpy from the parsed table; phonon part from the C01-C04 classes called directly with
-    independently derived strain fractions"""
+def independent_total(calc, key, which, table=None):
+    """static part recomputed with numpy from the table (as parsed for the shipped examples; from the GENERATED numbers, in file order, for synthetic sets -- so that the
+    reader is inside what is checked); phonon part from the C01-C04 classes called directly with independently derived strain fractions"""
     from qha.grid_interpolation import calculate_eulerian_strain
     import cij.core.tasks as tasks
     ed = calc.elast_data
-    Vt = numpy.array([v.volume for v in ed.volumes])
     grid = numpy.asarray(calc.v_array)
     gpa = 1e9 / (2.1798723611030e-18 / 5.29177210903e-11 ** 3)
+    if table is not None:
+        Vt = numpy.array(table["V"])
+        col = numpy.array(table["columns"]["c%d%d" % key.voigt]) if ("c%d%d" % key.voigt) in table["columns"] else None
+        lattice = table["lattice"]
+    else:
+        Vt = numpy.array([v.volume for v in ed.volumes])
+        col = numpy.array([v.static_elastic_modulus[key] for v in ed.volumes])
+        lattice = ed.lattice_parmeters
+    if col is None:          # a component the symmetry filling generated: not tabulated, nothing independent to compare with
+        return None
+    ref = float(Vt.max())    # any reference volume gives the same cubic (C13.lemma.eulerian_strain_reference_change_is_affine)
 
     def fit(col):
-        return numpy.polyval(numpy.polyfit(calculate_eulerian_strain(Vt[0], Vt), Vt * col, 3), calculate_eulerian_strain(Vt[0], grid)) / grid
-    static = fit(numpy.array([v.static_elastic_modulus[key] for v in ed.volumes]) * gpa)
-    if len(ed.lattice_parmeters) == 0:
+        return numpy.polyval(numpy.polyfit(calculate_eulerian_strain(ref, Vt), Vt * col, 3), calculate_eulerian_strain(ref, grid)) / grid
+    static = fit(col * gpa)
+    if len(lattice) == 0:
         strain = numpy.full((len(grid), 3), 1 / 3)
     else:
-        lat = numpy.array(ed.lattice_parmeters)
+        lat = numpy.array(lattice)
         D = numpy.zeros((len(grid), 3))
         for i in range(3):
             a = fit(lat[:, i])
@@ -414,7 +424,11 @@ def end_to_end(s):
                   ("akimotoite", {"qha": {"settings": {"DT": 50, "DT_SAMPLE": 50, "NT": 12, "NTV": 41, "DELTA_P": 1.0, "DELTA_P_SAMPLE": 1.0}}}, None)]
     # synthetic-but-physical sets: modes not in ascending order and crossing between volumes, non-integer weights, lattice ratios varying with volume, a q list that
     # does not start at Gamma, other crystal systems
-    cases += [("synthetic", {"seed": s.seed + 1, "system": "orthorhombic"}, "synthetic"), ("synthetic", {"seed": s.seed + 2, "system": "monoclinic", "gamma_first": False, "nq": 2}, "synthetic")]
+    # ... the static table listed ascending / shuffled and tabulated at other volumes than the phonon data, and the ends of the quantified domain (4 and 12 volumes, 1 and 8
+    # q-points, 1 and 10 atoms)
+    cases += [("synthetic", {"seed": s.seed + 1, "system": "orthorhombic", "static_order": "shuffled", "static_nv": 7}, "synthetic"),
+              ("synthetic", {"seed": s.seed + 2, "system": "monoclinic", "gamma_first": False, "nq": 1, "na": 1, "nv": 4, "static_order": "ascending"}, "synthetic"),
+              ("synthetic", {"seed": s.seed + 3, "system": "orthorhombic", "nq": 8, "na": 10, "nv": 12, "static_nv": 4, "lattice": True}, "synthetic")]
     if s.tier == "thorough":
         cases += [("synthetic", {"seed": s.seed + 3 + i, "system": sy, "lattice": bool(i % 2), "nq": 1 + i % 4, "na": 1 + i % 3, "nv": 6 + i % 5}, "synthetic")
                   for i, sy in enumerate(["cubic", "trigonal7", "orthorhombic", "monoclinic"] * 3)]
@@ -440,7 +454,9 @@ def end_to_end(s):
                     evals += 1
                     distinct += 1
                     got = numpy.asarray(getattr(calc, "modulus_" + which)[key])
-                    want = calc_env.quiet(independent_total, calc, key, which)
+                    want = calc_env.quiet(independent_total, calc, key, which, getattr(case, "description", {}).get("table"))
+                    if want is None:
+                        continue
                     ok = numpy.isfinite(want)
                     if got.shape != want.shape or not numpy.allclose(got[ok], want[ok], rtol=1e-7, atol=1e-7 * float(numpy.abs(want[ok]).max())):
                         fails.append({"witness_id": "e2e:%s:%s:%r:%s" % (ex, variant, key, which), "input": {"example": ex, "variant": variant, "key": repr(key), "which": which},
